@@ -130,12 +130,34 @@ def canon_after(kind, data, fn):
     return c, b.getvalue()
 
 
+def lyrics3_samples(kind):
+    """an APEv2 tag in front of a Lyrics3v2 block and an ID3v1 tag (the third place the APEv2 tag search looks at): the size
+    field of the Lyrics3v2 block is read and parsed on the way"""
+    if kind.style != "ape":
+        return []
+    from fam import synth
+    out = []
+    for name, data in kind.samples():
+        if name.startswith(("synth", "layout")):
+            continue
+        try:
+            body = synth.ape_strip(data)
+            fields = b"IND0000200" + b"LYR00011" + b"some lyrics"
+            lyr = b"LYRICSBEGIN" + fields
+            x = body + synth.ape_tag([(b"Title", b"LyricsThree"), (b"Artist", b"a")]) + lyr + (b"%06d" % len(lyr)) + b"LYRICS200" + synth.id3v1()
+            out.append(("c06-ape+lyrics3v2+id3v1+" + name, x))
+        except Exception:
+            pass
+        break
+    return out
+
+
 def format_oracle(ctx, dense, stride_n, max_idx, kinds=None, max_size=120000):
     from props.c19 import add_value
     for kname, kind in KINDS.items():
         if kinds and kname not in kinds:
             continue
-        for sample, data in kind.samples():
+        for sample, data in list(kind.samples()) + lyrics3_samples(kind):
             if len(data) > max_size:
                 continue
             try:
